@@ -116,8 +116,30 @@ func EncodeXMLElement(w xmlstream.TokenWriter, v interface{}, start xml.StartEle
 	if err != nil {
 		return err
 	}
-	if _, ok := tok.(xml.StartElement); !ok {
+	first, ok := tok.(xml.StartElement)
+	if !ok {
 		return fmt.Errorf("marshal: expected a start element, got %T", tok)
+	}
+	_, isMarshaler := v.(xmlstream.Marshaler)
+	_, isReader := v.(xml.TokenReader)
+	_, isWriterTo := v.(xmlstream.WriterTo)
+	if !isMarshaler && !isReader && !isWriterTo {
+		// Like encoding/xml, a plain value keeps its attribute fields next to
+		// the attributes of start.
+		attrs := append([]xml.Attr(nil), start.Attr...)
+	nextAttr:
+		for _, a := range first.Attr {
+			if a.Name.Space == "xmlns" || (a.Name.Space == "" && a.Name.Local == "xmlns") {
+				continue
+			}
+			for _, have := range start.Attr {
+				if have.Name == a.Name {
+					continue nextAttr
+				}
+			}
+			attrs = append(attrs, a)
+		}
+		start.Attr = attrs
 	}
 	if err = w.EncodeToken(start); err != nil {
 		return err
